@@ -22,6 +22,7 @@ pub fn run_line(line: &str) -> String {
         "re" => crate::re::run_re(&mut t),
         "relaw" => crate::re::run_relaw(&mut t),
         "ord" => crate::laws::run_ord(&mut t),
+        "poslaw" => crate::laws::run_poslaw(&mut t),
         "sortlaw" => crate::laws::run_sortlaw(&mut t),
         "scan" => crate::lang::run_scan(&mut t),
         "parse" => crate::lang::run_parse(&mut t),
